@@ -160,6 +160,75 @@ theorem nodeAnswer_cases {L : Layout} (wf : WF L) (n : Node) (hadm : n.Admissibl
     unfold nodeAnswer
     rw [hsent]
 
+/-! ### the loop of `discover_peer_contexts` -/
+
+theorem discoverLoop_mem (self : List Char) (rs : List (Nat × Packet)) (out : List Peer)
+    (h : discoverLoop self rs = .ok out) (e : Peer) :
+    e ∈ out ↔ e.name ≠ self ∧ ∃ a p, (a, p) ∈ rs ∧ utf8Decode (cstr (p.fld 7)) = some e.name ∧
+      e.addr = a ∧ e.port = sintOf (p.fld 9) := by
+  induction rs generalizing out with
+  | nil =>
+    simp only [discoverLoop] at h
+    cases h
+    simp
+  | cons r rs ih =>
+    obtain ⟨a, p⟩ := r
+    simp only [discoverLoop] at h
+    split at h
+    · cases h
+    · rename_i name hname
+      split at h
+      · cases h
+      · rename_i more hmore
+        have ih' := ih more hmore
+        split at h
+        · rename_i hne
+          cases h
+          rw [List.mem_cons, ih']
+          constructor
+          · rintro (rfl | ⟨h1, a', p', hm, h2⟩)
+            · exact ⟨hne, a, p, List.mem_cons_self, hname, rfl, rfl⟩
+            · exact ⟨h1, a', p', List.mem_cons_of_mem _ hm, h2⟩
+          · rintro ⟨h1, a', p', hm, h2, h3, h4⟩
+            rcases List.mem_cons.1 hm with heq | hm
+            · cases heq
+              left
+              rw [hname] at h2
+              cases e
+              simp only [Option.some.injEq] at h2
+              simp_all
+            · exact Or.inr ⟨h1, a', p', hm, h2, h3, h4⟩
+        · rename_i heq
+          cases h
+          rw [ih']
+          simp only [Decidable.not_not] at heq
+          constructor
+          · rintro ⟨h1, a', p', hm, h2⟩
+            exact ⟨h1, a', p', List.mem_cons_of_mem _ hm, h2⟩
+          · rintro ⟨h1, a', p', hm, h2, h3, h4⟩
+            rcases List.mem_cons.1 hm with heq' | hm
+            · cases heq'
+              rw [hname] at h2
+              simp only [Option.some.injEq] at h2
+              exact absurd (h2 ▸ heq) h1
+            · exact ⟨h1, a', p', hm, h2, h3, h4⟩
+
+theorem discover_cons_none (L : Layout) (self : List Char) (rid : Nat) (d : Nat × Bytes) (ds : List (Nat × Bytes))
+    (h : pingAccept L rid d = none) : discover L self rid (d :: ds) = discover L self rid ds := by
+  unfold discover ping
+  rw [List.filterMap_cons, h]
+
+theorem discover_cons_some (L : Layout) (self : List Char) (rid : Nat) (d : Nat × Bytes) (ds : List (Nat × Bytes))
+    (a : Nat) (p : Packet) (name : List Char) (more : List Peer)
+    (h : pingAccept L rid d = some (a, p)) (hn : utf8Decode (cstr (p.fld 7)) = some name)
+    (hm : discover L self rid ds = .ok more) :
+    discover L self rid (d :: ds) =
+      .ok (if name ≠ self then { name := name, addr := a, port := sintOf (p.fld 9) } :: more else more) := by
+  unfold discover ping at hm ⊢
+  rw [List.filterMap_cons, h]
+  simp only [discoverLoop, hn, hm]
+  split <;> rfl
+
 /-! ### concrete objects for the witness and the non-vacuity examples of `Props/C18.lean` -/
 
 instance (L : Layout) (bs : Bytes) : Decidable (IsInfoRequest L bs) := by unfold IsInfoRequest; infer_instance
